@@ -1,4 +1,8 @@
+use mcw::budget::Counting;
 use mcw::core::{emit_result, install_panic_hook, Ctx};
+
+#[global_allocator]
+static GLOBAL: Counting = Counting;
 use std::io::Write;
 
 fn usage() -> ! {
@@ -67,6 +71,7 @@ fn main() {
         "C10" => mcw::steps::c10(&mut ctx),
         "C12" | "C13" => mcw::c12::run(&mut ctx),
         "C14" => mcw::c14::run(&mut ctx),
+        "C15" => mcw::c15::run(&mut ctx),
         "C16" => mcw::c16::run(&mut ctx),
         "C18" => mcw::c18::run(&mut ctx),
         "C19" => mcw::c19::run(&mut ctx),
